@@ -206,7 +206,7 @@ pub fn c13(rng: &mut Rng, tier: &str, _idx: usize) -> Case {
 
 // ---------------------------------------------------------------- C18
 
-const EDIT_KINDS: [&str; 17] = [
+const EDIT_KINDS: [&str; 16] = [
     "none",
     "rename_term",
     "add_parent",
@@ -223,7 +223,11 @@ const EDIT_KINDS: [&str; 17] = [
     "version",
     "several",
     "many",
-    "dangling_parent",
+    // "dangling_parent" (a parent id that is not a term) was generated here at first: such an
+    // ontology is outside C18's quantifier (C15: ontologies are referentially closed) and whether the
+    // comparison panics on it is not pinned by the property; a harmless refactoring (reading
+    // `parent_ids()` instead of the resolving `parents()` iterator) raised a false alarm, so the
+    // edit kind is no longer generated.
 ];
 
 fn flag_of(flags: &mut Flags, id: u32) -> &mut (u32, bool, Option<u32>) {
